@@ -4,8 +4,8 @@ SPEC = {
     "coq_targets": ["theories/Network/Props_C01.vo", "theories/Network/Findings.vo", "theories/Network/Cases.vo"],
     "props": "theories/Network/Props_C01.v",
     "harness": [
-        {"bin": "h_network", "n": {"quick": 180, "thorough": 3000}, "args": ["--mode", "c01"], "known_bits": {}},
-        {"bin": "h_segments", "n": {"quick": 90, "thorough": 1200}, "known_bits": {16: "C01-beacon-peer-beta"}},
+        {"bin": "h_network", "n": {"quick": 180, "thorough": 3000}, "args": ["--mode", "c01"], "known_bits": {16: "C01-peer-mac-over-beta-i"}},
+        {"bin": "h_segments", "n": {"quick": 90, "thorough": 1200}, "known_bits": {16: "C01-peer-mac-over-beta-i"}},
         {"bin": "h_joinable", "n": {"quick": 120, "thorough": 2400}, "known_bits": {}},
     ],
     "shard_eval": "coqtop",
